@@ -6,6 +6,16 @@
 (* lcm of the denominators.  Equality of normal rationals is tuple equality.   *)
 EXTENDS Integers, Sequences
 
+(* TLC does not cache the lazily evaluated arguments of an operator when it      *)
+(* evaluates invariants or assumptions: an argument expression is re-evaluated   *)
+(* at every use of the parameter.  LetN binds the arguments to VALUES first       *)
+(* (bound variables of a set constructor are values), then applies Op.             *)
+Let1(u, Op(_)) == CHOOSE y \in {Op(a) : a \in {u}} : TRUE
+Let2(u, v, Op(_, _)) == CHOOSE y \in {Op(a, b) : a \in {u}, b \in {v}} : TRUE
+Let3(u, v, w, Op(_, _, _)) == CHOOSE y \in {Op(a, b, c) : a \in {u}, b \in {v}, c \in {w}} : TRUE
+Let4(u, v, w, z, Op(_, _, _, _)) ==
+  CHOOSE y \in {Op(a, b, c, d) : a \in {u}, b \in {v}, c \in {w}, d \in {z}} : TRUE
+
 QAbs(x) == IF x < 0 THEN -x ELSE x
 
 RECURSIVE QGcd(_, _)
